@@ -64,6 +64,12 @@ type runner struct {
 
 // step executes one command against the real code and records it (unless silent).
 func (r *runner) step(c *dh.Cmd, silent bool) (accepted bool) {
+	acc, _ := r.stepC(c, silent)
+	return acc
+}
+
+// stepC is step that also returns the outcome class of a store command.
+func (r *runner) stepC(c *dh.Cmd, silent bool) (accepted bool, class string) {
 	pre, err := r.h.State()
 	if err != nil {
 		fatal("state: %v", err)
@@ -97,6 +103,7 @@ func (r *runner) step(c *dh.Cmd, silent bool) (accepted bool) {
 			}
 			res = o.wr
 			accepted = o.wr.Class == "ok"
+			class = o.wr.Class
 		case <-time.After(5 * dh.Watchdog):
 			res = dh.WriteRes{Class: "hung"}
 			hung = true
@@ -128,7 +135,20 @@ func (r *runner) step(c *dh.Cmd, silent bool) (accepted bool) {
 		fmt.Printf("{\"behaviours\":%d,\"events\":%d,\"hung\":true}\n", r.hi+1, r.rec.events)
 		os.Exit(3)
 	}
-	return accepted
+	return accepted, class
+}
+
+// compileProposed sends the entry set of a REJECTED write/delete through the compiler directly.
+func (r *runner) compileProposed(c *dh.Cmd, svcs []string) {
+	pre, err := r.h.State()
+	if err != nil {
+		fatal("state: %v", err)
+	}
+	set := dh.Proposed(pre, c)
+	for _, s := range svcs {
+		ctx := autoCtx[0]
+		r.step(&dh.Cmd{T: "compile", Svc: s, Ctx: &ctx, Src: "direct", Set: &set}, false)
+	}
 }
 
 var nAutoCtx = 3
@@ -159,6 +179,11 @@ func normCmd(c *dh.Cmd) *dh.Cmd {
 	}
 	if c2.E != nil {
 		dh.NormEntry(c2.E)
+	}
+	if c2.Set != nil {
+		for i := range *c2.Set {
+			dh.NormEntry(&(*c2.Set)[i])
+		}
 	}
 	if c2.Mode == "" && c2.T != "compile" {
 		c2.Mode = "set"
@@ -191,10 +216,13 @@ func replay(in, out string, auto, lastonly bool, svcs []string, reps int, seed i
 			c = normCmd(c)
 			r.k = i + 1
 			last := i == len(beh)-1
-			acc := r.step(c, lastonly && !last)
+			acc, class := r.stepC(c, lastonly && !last)
 			// an unchanged state was compiled when it was reached
 			if auto && acc && (!lastonly || last) {
 				r.autoCompile(svcs)
+			}
+			if auto && class == "reject" && (!lastonly || last) {
+				r.compileProposed(c, svcs)
 			}
 		}
 	}
@@ -396,7 +424,11 @@ func random(seed int64, n, length int, out string, reps int) {
 				c = g.next()
 			}
 			r.k = i + 1
-			acc := r.step(normCmd(c), false)
+			nc := normCmd(c)
+			acc, class := r.stepC(nc, false)
+			if class == "reject" {
+				r.compileProposed(nc, rSvcs)
+			}
 			// every chain in the default context, and in one random context ; one through the store
 			rc := dh.Ctx{Dc: g.pick([]string{"dc1", "dc1", "dc2", "dc3"}), Op: g.pick(rOps), Mg: g.pick(rMgs), Ct: rr.Intn(2) * 7}
 			for _, s := range rSvcs {
